@@ -257,7 +257,8 @@ class DeprecatedOptions:
                     "#define {}{} {}{}{}\n".format(
                         self.config_prefix,
                         dep_opt,
-                        "!" if dep_opt in self.inversions else "",
+                        # inversion only applies to bool options (as in sdkconfig and CMake outputs)
+                        "!" if dep_opt in self.inversions and config.syms[new_opt].orig_type == BOOL else "",
                         self.config_prefix,
                         new_opt,
                     )
